@@ -21,6 +21,9 @@ raw characters went to `strconv.ParseInt` (which takes a sign), was found by thi
 fixed in /repo by 7c1a0665 (`ParseUint`); the model mirrors the fix and `sign_in_escape_rejected`
 records the agreement.
 Proved for all inputs (unbounded):
+* `string_ascii_agrees`: for EVERY all-ASCII string literal (any escapes, any length) the model of
+  `readStringLiteral` and the transcribed tokenizer agree on accept/reject and on the decoded bytes
+  (state elimination `Lemmas.StrSim.strGo_pure` + lock-step simulation `agree_all`).
 * `int_value_eq_dec / _oct / _hex`: the integer decoders compute the positional value and signal
   overflow exactly above 2^64-1; `lexNumber_dec` / `protocNumber_dec`: model and specification agree
   on every decimal integer literal, including "too large for uint64 becomes a float".
@@ -31,8 +34,9 @@ Float values are tied to `strconv.ParseFloat` by correspondence only (model `Num
 import PCV.Model.Lex
 import PCV.Spec.Lex
 import PCV.Lemmas.NumLemmas
+import PCV.Lemmas.StrSim
 namespace PCV.Props.C14
-open PCV.Lex PCV.FileInfo PCV.Spec.Lex PCV.Num PCV.Lemmas.NumLemmas
+open PCV.Lex PCV.FileInfo PCV.Spec.Lex PCV.Num PCV.Lemmas.NumLemmas PCV.Lemmas.StrSim PCV.Lemmas.LexInv
 
 /-- how the model treats a source text that is meant to be one literal -/
 inductive Out where
@@ -93,6 +97,48 @@ theorem C14_number_full_refuted : ¬ C14_number_full := by
   revert this; decide
 
 /-! ### what holds for all inputs -/
+
+/-- **strings, ASCII sources (unbounded).** For every string literal whose characters are all ASCII —
+    any quote, any escapes, any length — `readStringLiteral` (model `strGo`, started in any lexer
+    state satisfying the lexer invariant) accepts exactly when the transcribed protoc tokenizer
+    accepts, with the same decoded bytes, and rejects exactly when it rejects, wherever the
+    transcription makes a claim. Together with `C14_string_full_refuted_raw` this confines the
+    divergence to non-ASCII raw bytes. -/
+theorem string_ascii_agrees (data : List UInt8) (q : UInt8) (hq : q = 34 ∨ q = 39) (body : List UInt8)
+    (hascii : ∀ b ∈ body, b.toNat < 128) (st : St) (hcore : Core data st (runes body)) :
+    match protocString (q :: body) with
+    | .accept v => (strGo q.toNat 0 st {} (runes body)).2 = .ok v
+    | .reject => (∃ cls, (strGo q.toNat 0 st {} (runes body)).2 = .plain cls) ∨
+                 (∃ e, (strGo q.toNat 0 st {} (runes body)).2 = .pos e)
+    | .unknown => True := by
+  have hag := agree_all q hq body hascii 0 []
+  have hpure := strGo_pure q.toNat (runes body) 0 st {} (by intro h; simp at h)
+  have hpost := strGo_spec (data := data) q.toNat (runes body) 0 st {} (Nat.zero_le _) (by simpa using hcore)
+    ⟨by intro e he; simp at he, by intro h; simp at h⟩
+  obtain ⟨k, _, _, _, _, _, hres⟩ := hpost
+  have hnp : (strGo q.toNat 0 st {} (runes body)).2 ≠ .panic := by
+    intro hp; rw [hp] at hres; exact hres
+  have hps : protocString (q :: body) = pstrGo q 0 body [] := by
+    simp only [protocString]
+    rcases hq with rfl | rfl <;> simp
+  rw [hps]
+  unfold Agree at hag
+  rw [← runes_ascii body hascii] at hag
+  rcases hpure with hp | hp
+  · exact absurd hp hnp
+  · simp only [Option.isSome_none] at hp
+    cases hsp : pstrGo q 0 body [] with
+    | accept v =>
+      rw [hsp] at hag
+      simp only at hag ⊢
+      rw [hag] at hp
+      exact hp
+    | reject =>
+      rw [hsp] at hag
+      simp only at hag ⊢
+      rw [hag] at hp
+      exact hp
+    | unknown => trivial
 
 /-- decimal integers: `ParseUint` gives the value, range error exactly above 2^64-1 -/
 theorem int_value_eq_dec (s : List UInt8) (hne : s ≠ []) (hd : s.all isDig = true) :
@@ -178,6 +224,7 @@ end PCV.Props.C14
 #print axioms PCV.Props.C14.sign_in_escape_rejected
 #print axioms PCV.Props.C14.C14_string_full_refuted_raw
 #print axioms PCV.Props.C14.C14_number_full_refuted
+#print axioms PCV.Props.C14.string_ascii_agrees
 #print axioms PCV.Props.C14.int_value_eq_dec
 #print axioms PCV.Props.C14.int_value_eq_oct
 #print axioms PCV.Props.C14.int_value_eq_hex
